@@ -69,7 +69,7 @@ mod verif_kani_datetime {
         assert!(dt.overflowing_naive_local() == u.overflowing_add_offset(o), "wall clock = UTC shifted by the offset");
     }
 
-    // fns: TimeZone::from_local_datetime for FixedOffset, DateTime::naive_local
+    // fns: TimeZone::from_local_datetime for FixedOffset, DateTime::naive_local, DateTime::from_local (deprecated), DateTime::from_utc (deprecated)
     #[kani::proof]
     fn vk_dt_from_local() {
         let l = any_ndt(); let o = any_offset();
@@ -78,6 +78,13 @@ mod verif_kani_datetime {
             MappedLocalTime::Single(dt) => {
                 assert!(Some(dt.naive_utc()) == l.checked_sub_offset(o) && *dt.offset() == o, "instant = wall clock minus offset");
                 assert!(dt.naive_utc().checked_add_offset(o) == Some(l), "reading the wall clock back is the identity");
+                // the deprecated constructors build the same value
+                #[allow(deprecated)]
+                let dep = DateTime::<FixedOffset>::from_local(l, o);
+                assert!(dep.naive_utc() == dt.naive_utc() && *dep.offset() == o, "deprecated DateTime::from_local = from_local_datetime");
+                #[allow(deprecated)]
+                let dep2 = DateTime::<FixedOffset>::from_utc(dt.naive_utc(), o);
+                assert!(dep2.naive_utc() == dt.naive_utc() && *dep2.offset() == o, "deprecated DateTime::from_utc keeps the UTC value");
             }
             MappedLocalTime::None => assert!(l.checked_sub_offset(o).is_none(), "fails only when the UTC reading leaves the range"),
             MappedLocalTime::Ambiguous(_, _) => assert!(false, "a fixed offset is never ambiguous"),
